@@ -31,6 +31,7 @@ import (
 	"github.com/google/osv-scalibr/extractor/filesystem"
 	scalibrfs "github.com/google/osv-scalibr/fs"
 	"github.com/google/osv-scalibr/inventory"
+	"github.com/google/osv-scalibr/log"
 	"github.com/google/osv-scalibr/plugin"
 	"github.com/google/osv-scalibr/purl"
 
@@ -261,4 +262,99 @@ func scanSite(seed int64, site, mode string) {
 	ok := status == "ok" && int(calls.Load()) == nfiles
 	fmt.Printf("scan seed=%d site=%s mode=%s dirs=%d files=%d pauses=%d pause_ms=%d elapsed_ms=%d ticker_expected=%s ticker_fired=%s complete=%s\n", seed, site, mode, ndirs, nfiles,
 		f.hits.Load(), f.d.Milliseconds(), el.Milliseconds(), hx.B(mode == "tree"), hx.B(mode == "tree" && el > 2100*time.Millisecond), hx.B(ok))
+}
+
+// ---- multi-root scans: the ticker of the PREVIOUS root is signalled (close(quit)) but never joined
+
+// slowLogger blocks for a while on every status line ("Status: …", the call printStatus makes while holding statusMu): a user-installed
+// log.Logger that writes to something slow.
+type slowLogger struct {
+	d      time.Duration
+	status atomic.Int64
+}
+
+func (l *slowLogger) Infof(format string, args ...any) {
+	if strings.HasPrefix(format, "Status:") {
+		l.status.Add(1)
+		time.Sleep(l.d)
+	}
+}
+func (l *slowLogger) Errorf(string, ...any) {}
+func (l *slowLogger) Error(...any)          {}
+func (l *slowLogger) Warnf(string, ...any)  {}
+func (l *slowLogger) Warn(...any)           {}
+func (l *slowLogger) Info(...any)           {}
+func (l *slowLogger) Debugf(string, ...any) {}
+func (l *slowLogger) Debug(...any)          {}
+
+// sleepEx sleeps inside Extract on the files named slow*.txt: the walk of a root then ends (no further handleFile, no further statusMu
+// acquisition by the walker) while a status line that started during that Extract is still being written.
+type sleepEx struct {
+	d     time.Duration
+	calls *atomic.Int64
+}
+
+func (e sleepEx) Name() string                       { return "c16/sleep" }
+func (e sleepEx) Version() int                       { return 0 }
+func (e sleepEx) Requirements() *plugin.Capabilities { return &plugin.Capabilities{} }
+func (e sleepEx) FileRequired(api filesystem.FileAPI) bool {
+	return strings.HasSuffix(api.Path(), ".txt")
+}
+func (e sleepEx) Extract(ctx context.Context, in *filesystem.ScanInput) (inventory.Inventory, error) {
+	e.calls.Add(1)
+	if strings.HasPrefix(path.Base(in.Path), "slow") {
+		time.Sleep(e.d)
+	}
+	return inventory.Inventory{}, nil
+}
+func (e sleepEx) ToPURL(p *extractor.Package) *purl.PackageURL { return nil }
+func (e sleepEx) Ecosystem(p *extractor.Package) string        { return "" }
+
+// scanMultiRoot: filesystem.Run over 2..3 scan roots. In every root but the last the LAST file visited is slow.txt, whose Extract outlasts
+// the 2 s status interval, so that root's ticker fires during it and is still inside printStatus (slow logger) when the walk ends, RunFS
+// returns and RunFS for the next root starts: whatever RunFS itself touches of the status fields meets the previous root's ticker.
+func scanMultiRoot(seed int64) {
+	rng := rand.New(rand.NewSource(seed))
+	nroots := 2 + rng.Intn(2)
+	ext := time.Duration(2150+rng.Intn(300)) * time.Millisecond
+	lg := &slowLogger{d: time.Duration(700+rng.Intn(500)) * time.Millisecond}
+	log.SetLogger(lg)
+	var calls atomic.Int64
+	var roots []*scalibrfs.ScanRoot
+	want := 0
+	for r := 0; r < nroots; r++ {
+		f := &slowFS{byPath: map[string]*sNode{}, site: "none"}
+		root := &sNode{name: ".", dir: true}
+		f.byPath["."] = root
+		d := &sNode{name: "d", dir: true}
+		root.kids = append(root.kids, d)
+		f.byPath["d"] = d
+		for i := 0; i < 2+rng.Intn(4); i++ {
+			n := &sNode{name: fmt.Sprintf("f%d.txt", i), data: []byte("x")}
+			d.kids = append(d.kids, n)
+			f.byPath["d/"+n.name] = n
+			want++
+		}
+		if r < nroots-1 { // listed last: nothing is visited after it
+			n := &sNode{name: "slow.txt", data: []byte("x")}
+			d.kids = append(d.kids, n)
+			f.byPath["d/slow.txt"] = n
+			want++
+		}
+		roots = append(roots, &scalibrfs.ScanRoot{FS: f})
+	}
+	cfg := &scalibr.ScanConfig{FilesystemExtractors: []filesystem.Extractor{sleepEx{d: ext, calls: &calls}}, ScanRoots: roots, Capabilities: &plugin.Capabilities{}}
+	start := time.Now()
+	status := hx.Guard(func() string {
+		r := scalibr.New().Scan(context.Background(), cfg)
+		if r.Status.Status != plugin.ScanStatusSucceeded {
+			return "failed"
+		}
+		return "ok"
+	})
+	el := time.Since(start)
+	time.Sleep(lg.d + 200*time.Millisecond) // let the last status line finish: its ticker goroutine is not joined by the scan either
+	ok := status == "ok" && int(calls.Load()) == want
+	fmt.Printf("scan seed=%d site=multiroot mode=tree roots=%d slow_extract_ms=%d logger_ms=%d status_lines=%d elapsed_ms=%d ticker_expected=1 ticker_fired=%s complete=%s\n",
+		seed, nroots, ext.Milliseconds(), lg.d.Milliseconds(), lg.status.Load(), el.Milliseconds(), hx.B(lg.status.Load() > 0), hx.B(ok))
 }
